@@ -288,13 +288,14 @@ def farm(run_fn, base_seed, n_runs, opts=None, workers=None, batch=None):
         # A run that kills its process (SIGSEGV / SIGBUS / hard exit) is a violation of whatever was being
         # checked, provided it can be pinned to one run that dies on its own in a fresh child.
         _, lo, hi, _ = dead.job
+        single = dict(opts, batch_timeout=min(180, opts.get("batch_timeout", 900)))  # one run never needs minutes
         for idx in range(lo, hi):
             try:
-                run_batches([(base_seed, idx, idx + 1, opts)], 1, opts.get("batch_timeout", 900))
+                run_batches([(base_seed, idx, idx + 1, single)], 1, single["batch_timeout"])
             except WorkerDied as again:
                 vj = {"property": opts.get("prop", "?"), "vclass": "process-killed", "where": "run",
                       "signature": "process-killed@run", "batch_lo": idx,
-                      "message": "run %d killed its process (%s)" % (idx, again.how),
+                      "message": "run %d killed its process or never finished (%s; 'exit 1' = the hang guard fired)" % (idx, again.how),
                       "extra": {"case": {"rerun": {"verif_seed": base_seed, "tier": opts.get("tier", "quick"),
                                                    "lo": idx, "hi": idx, "why": "the run kills the interpreter"}}}}
                 total = Stats()
